@@ -61,10 +61,11 @@ Proof. intros W SQ G. cbn [wf] in W.
               (forallb (fun mc => wf (fst mc)) (tops p3 ts) = true /\ map (fun mc => (shape (fst mc), snd mc)) (tops p3 ts) = map (fun mc => (shape (fst mc), snd mc)) ms) /\
               exists Ts, map b1 Ts = blocks (tops p1 ts) /\ map b2 Ts = blocks (tops p2 ts) /\ map b3 Ts = blocks (tops p3 ts) /\ Forall2 plublk Ts (blocks ms)).
   { induction G as [|[[[P L] U] mu'] [m mu] ts ms [((WP & SP) & (WL & SL) & (WU & SU) & PP & LL & UU & F) Emu] G IH].
-    - repeat split; try reflexivity. exists []. repeat split; constructor.
+    - split; [split; reflexivity|]. split; [split; reflexivity|]. split; [split; reflexivity|]. exists []. repeat split; constructor.
     - cbn [fst snd] in *. subst mu'. cbn [forallb fst] in W, SQ. apply andb_prop in W as [W1 W]. apply andb_prop in SQ as [S1 SQ].
       destruct (IH W SQ) as ((A1 & A2) & (B1 & B2) & (C1 & C2) & (Ts & T1 & T2 & T3 & TF)).
-      unfold tops in *. cbn [map fst snd forallb p1 p2 p3]. rewrite WP, WL, WU, SP, SL, SU, A1, A2, B1, B2, C1, C2. repeat split; auto.
+      unfold tops in *. cbn [map fst snd forallb p1 p2 p3]. rewrite WP, WL, WU, SP, SL, SU, A1, A2, B1, B2, C1, C2.
+      split; [split; reflexivity|]. split; [split; reflexivity|]. split; [split; reflexivity|].
       exists (rep mu (((shape m, den (dto_op P)), (shape m, den (dto_op L))), (shape m, den (dto_op U))) ++ Ts).
       unfold blocks in *. cbn [map concat fst snd]. rewrite !map_app, T1, T2, T3, SP, SL, SU.
       assert (RM : forall (f : blk * blk * blk -> blk) (x : blk * blk * blk) k, map f (rep k x) = rep k (f x)) by (intros f x k; induction k; cbn [rep map]; congruence).
